@@ -1,0 +1,6 @@
+//go:build !verif
+
+package raft
+
+// verifAfterRTOReset is a no-op unless built with `-tags verif`.
+func verifAfterRTOReset(*raft) {}
